@@ -325,6 +325,17 @@ class PolyEnv:
                     return self.poly(e.left).scale(2 ** int(r.const_value()))
                 return self.atom(e)
             return self.atom(e)
+        if isinstance(e, ast.Subscript) and isinstance(e.value, ast.ListComp) and len(e.value.generators) == 1 and not e.value.generators[0].ifs \
+                and isinstance(e.value.generators[0].target, ast.Name) and isinstance(e.value.generators[0].iter, ast.Call) \
+                and dotted(e.value.generators[0].iter.func) == "range" and len(e.value.generators[0].iter.args) == 1 and not isinstance(e.slice, (ast.Slice, ast.Tuple)):
+            # element k of [f(i) for i in range(n)] is f(k)
+            import copy
+            var, idx = e.value.generators[0].target.id, e.slice
+
+            class S(ast.NodeTransformer):
+                def visit_Name(self, node):  # noqa: N802
+                    return copy.deepcopy(idx) if node.id == var and isinstance(node.ctx, ast.Load) else node
+            return self.poly(S().visit(copy.deepcopy(e.value.elt)))
         if isinstance(e, ast.Call) and len(_concat_parts(e)) > 1:
             return Poly.sym("concat(" + ", ".join(self._arg(p) for p in _concat_parts(e)) + ")")
         if isinstance(e, ast.Call):
